@@ -137,9 +137,11 @@ struct resp {
 static struct resp resps[MAXRESP];
 static int freecb_count[MAXRESP];
 
+/* every log line is written under the stdio lock: in the internal-thread modes the daemon thread
+   and the script thread both print */
 static void out (const char *fmt, ...)
 {
-  va_list ap; va_start (ap, fmt); vprintf (fmt, ap); va_end (ap); putchar ('\n');
+  va_list ap; va_start (ap, fmt); flockfile (stdout); vprintf (fmt, ap); putchar ('\n'); funlockfile (stdout); va_end (ap);
 }
 
 static void puthexs (const char *s, size_t n)
@@ -176,7 +178,7 @@ static void upgrade_cb (void *cls, struct MHD_Connection *connection, void *req_
 {
   struct req *rq = (struct req *) req_cls;
   (void) connection;
-  printf ("upgrade c=%d extra=", rq->c); puthexs (extra_in, extra_in_size); putchar ('\n');
+  flockfile (stdout); printf ("upgrade c=%d extra=", rq->c); puthexs (extra_in, extra_in_size); putchar ('\n'); funlockfile (stdout);
   conns[rq->c].urh = urh; conns[rq->c].usock = sock; conns[rq->c].upgraded = 1;
   printf ("upgrade-sock c=%d same=%d\n", rq->c, (int) (sock == conns[rq->c].sfd));
   if (NULL != cls)
@@ -326,7 +328,7 @@ static void notify_conn (void *cls, struct MHD_Connection *mc, void **socket_con
 static void *uri_log (void *cls, const char *uri, struct MHD_Connection *mc)
 {
   (void) cls;
-  printf ("uri-log c=%d uri=", conn_index (mc)); puthexs (uri, strlen (uri)); putchar ('\n');
+  flockfile (stdout); printf ("uri-log c=%d uri=", conn_index (mc)); puthexs (uri, strlen (uri)); putchar ('\n'); funlockfile (stdout);
   return NULL;
 }
 
@@ -413,6 +415,7 @@ static enum MHD_Result handler (void *cls, struct MHD_Connection *mc, const char
   b = (rq->r < MAXR && conns[c].beh[rq->r].used) ? &conns[c].beh[rq->r] : &defbeh;
   if (!defbeh.used) { defbeh.used = 1; strcpy (defbeh.f, "c"); strcpy (defbeh.l, "r0"); defbeh.ntake = 0; defbeh.ur_n = -1; defbeh.us_n = -1; }
 
+  flockfile (stdout);
   printf ("handler c=%d r=%d phase=%s method=", rq->c, rq->r, phase); puthexs (method, strlen (method));
   printf (" url="); puthexs (url, strlen (url)); printf (" ver="); puthexs (version, strlen (version));
   printf (" up=");
@@ -433,6 +436,7 @@ static enum MHD_Result handler (void *cls, struct MHD_Connection *mc, const char
     putchar (']');
   }
   putchar ('\n');
+  funlockfile (stdout);
 
   if (!strcmp (phase, "first"))
   {
@@ -473,7 +477,7 @@ static void drain_clients (void)
     for (;;)
     {
       ssize_t r = recv (conns[c].cfd, buf, sizeof(buf), MSG_DONTWAIT);
-      if (r > 0) { printf ("wire c=%d ", c); lp_puthex (stdout, buf, (size_t) r); putchar ('\n'); continue; }
+      if (r > 0) { flockfile (stdout); printf ("wire c=%d ", c); lp_puthex (stdout, buf, (size_t) r); putchar ('\n'); funlockfile (stdout); continue; }
       if (0 == r) { out ("eof c=%d", c); conns[c].eof_seen = 1; }
       else if (errno == ECONNRESET || errno == EPIPE) { out ("rst c=%d", c); conns[c].eof_seen = 1; }
       break;
@@ -574,7 +578,7 @@ int main (void)
   {
     const char *v; int i; uint64_t a, b;
     const char *op = l.w[0];
-    { int k; printf ("#"); for (k = 0; k < l.n && k < 3; k++) printf (" %s", l.w[k]); putchar ('\n'); }   /* op echo */
+    { int k; flockfile (stdout); printf ("#"); for (k = 0; k < l.n && k < 3; k++) printf (" %s", l.w[k]); putchar ('\n'); funlockfile (stdout); }   /* op echo */
     if (!strcmp (op, "tok") && l.n >= 2)
     { uint8_t *z = unhexz (l.w[1]); if (!z) { out ("bad-op"); continue; }
       out ("tok %d", (int) MHD_str_has_s_token_caseless_ ((const char *) z, "upgrade")); free (z); continue; }
@@ -681,7 +685,7 @@ int main (void)
     { out ("up-close c=%d -> %d", (int) a, (int) MHD_upgrade_action (conns[a].urh, MHD_UPGRADE_ACTION_CLOSE)); conns[a].upgraded = 0; continue; }
     if (!strcmp (op, "up-recv") && l.n >= 2 && lp_u64 (l.w[1], &a) && a < MAXC && conns[a].upgraded)
     { static uint8_t ub[65536]; ssize_t r; app_io++; r = recv (conns[a].usock, ub, sizeof(ub), MSG_DONTWAIT); app_io--;
-      printf ("up-data c=%d ", (int) a); if (r > 0) lp_puthex (stdout, ub, (size_t) r); else putchar ('-'); putchar ('\n'); continue; }
+      flockfile (stdout); printf ("up-data c=%d ", (int) a); if (r > 0) lp_puthex (stdout, ub, (size_t) r); else putchar ('-'); putchar ('\n'); funlockfile (stdout); continue; }
     if (!strcmp (op, "up-send") && l.n >= 3 && lp_u64 (l.w[1], &a) && a < MAXC && conns[a].upgraded)
     { size_t n; uint8_t *bytes = lp_unhex (l.w[2], &n); ssize_t r; app_io++; r = bytes ? send (conns[a].usock, bytes, n, MSG_NOSIGNAL) : -1; app_io--; free (bytes);
       out ("up-sent c=%d n=%zd", (int) a, r); continue; }
